@@ -124,6 +124,8 @@ typedef void (*vp_stranded_cb_t)(void);
 // runtime_mode != 0: evaluate logical quiescence of the fiber runtime (needs ghost monitor)
 void vp_watchdog_start(int runtime_mode, vp_stranded_cb_t on_stranded);
 void vp_mark_done(void);  // harness reached its normal end: watchdog stops judging
+// called from the watchdog thread every few ms (logical, harness-specific deadlock checks)
+void vp_set_periodic(void (*cb)(void));
 
 // ---- ghost monitor of the fiber runtime (vp_ghost.c)
 typedef struct vp_gfiber {
